@@ -423,4 +423,65 @@ def DOK (m : Mode) (st : SplitStatus) : CKind → Prop
 theorem KOK.dok {m : Mode} {st : SplitStatus} {k : CKind} (h : KOK m st k) : DOK m st k := by
   cases k <;> first | exact h | trivial
 
+/-! ### the table of kinds -/
+
+/-- every kind `charsPre mode st` can answer -/
+def kinds (m : Mode) (st : SplitStatus) : List CKind :=
+  match m, st with
+  | .initial, .notSplit => [.split] | .initial, .whitespace => [.drop] | .initial, .notWhitespace => [.re .beforeHtml]
+  | .beforeHtml, .notSplit => [.split] | .beforeHtml, .whitespace => [.drop]
+  | .beforeHtml, .notWhitespace => [.re .beforeHead]
+  | .beforeHead, .notSplit => [.split] | .beforeHead, .whitespace => [.drop]
+  | .beforeHead, .notWhitespace => [.re .inHead]
+  | .inHead, .notSplit => [.split] | .inHead, .whitespace => [.fa] | .inHead, .notWhitespace => [.re .afterHead]
+  | .inHeadNoscript, .notSplit => [.split] | .inHeadNoscript, .whitespace => [.fa]
+  | .inHeadNoscript, .notWhitespace => [.re .inHead]
+  | .afterHead, .notSplit => [.split] | .afterHead, .whitespace => [.fa] | .afterHead, .notWhitespace => [.re .inBody]
+  | .inBody, _ => [.body false]
+  | .text, _ => [.fa]
+  | .inTable, _ => [.re .inTableText, .body true]
+  | .inTableBody, _ => [.re .inTableText, .body true]
+  | .inRow, _ => [.re .inTableText, .body true]
+  | .inTableText, _ => [.pend]
+  | .inCaption, _ => [.body false]
+  | .inCell, _ => [.body false]
+  | .inTemplate, _ => [.body false]
+  | .inColumnGroup, .notSplit => [.split] | .inColumnGroup, .whitespace => [.fa]
+  | .inColumnGroup, .notWhitespace => [.re .inTable, .drop]
+  | .afterBody, .notSplit => [.split] | .afterBody, .whitespace => [.body false]
+  | .afterBody, .notWhitespace => [.re .inBody]
+  | .inFrameset, .notSplit => [.split] | .inFrameset, .whitespace => [.fa] | .inFrameset, .notWhitespace => [.drop]
+  | .afterFrameset, .notSplit => [.split] | .afterFrameset, .whitespace => [.fa]
+  | .afterFrameset, .notWhitespace => [.drop]
+  | .afterAfterBody, .notSplit => [.split] | .afterAfterBody, .whitespace => [.body false]
+  | .afterAfterBody, .notWhitespace => [.re .inBody]
+  | .afterAfterFrameset, .notSplit => [.split] | .afterAfterFrameset, .whitespace => [.body false]
+  | .afterAfterFrameset, .notWhitespace => [.drop]
+
+macro_rules | `(tactic| resp_side) => `(tactic| (show _ ∈ kinds _ _; decide))
+
+theorem tablePre_kinds : RespQ (fun k => k = .re .inTableText ∨ k = .body true) tablePre := by
+  unfold tablePre
+  refine respQ_bind (P := fun _ => True) (currentNodeIn_resp _) ?_
+  intro b _
+  refine respQ_ite (fun _ => ?_) (fun _ => ?_)
+  · refine respQ_getS_bind' ?_
+    intro s t hst
+    have he := pendEmpty_eq hst.pend
+    have hr : RespQ (fun k => k = .re .inTableText ∨ k = .body true) (do
+        if !s.pendingTableText.isEmpty then
+          panicAt "assert" "mod.rs:1250" "assert!(self.pending_table_text.borrow().is_empty())"
+        modS fun s => { s with origMode := some s.mode }
+        pure (CKind.re .inTableText) : M CKind) := by resp_auto
+    have := hr s t hst
+    rw [he] at this ⊢
+    exact this
+  · resp_auto
+
+theorem charsPre_kinds (m : Mode) (st : SplitStatus) : RespQ (fun k => k ∈ kinds m st) (charsPre m st) := by
+  cases m <;> cases st <;>
+    first
+    | exact respQ_weaken tablePre_kinds (fun k hk => by rcases hk with rfl | rfl <;> decide)
+    | (simp only [charsPre]; resp_auto)
+
 end H5V.Lemmas.TBSplit
